@@ -36,6 +36,17 @@ Fixpoint join (sep : string) (l : list string) : string :=
   | x :: r => x ++ sep ++ join sep r
   end%string.
 
+(* ---- decimal rendering of integers (Python "%d" % n, str(n)); 40 digits of fuel: exact below 10^40 ---- *)
+Open Scope Z_scope.
+Definition zstr_digit (n : Z) : ascii := ascii_of_nat (48 + Z.to_nat n).
+Fixpoint z_digits (fuel : nat) (n : Z) (acc : list ascii) : list ascii :=
+  match fuel with
+  | O => acc
+  | S f => if n <? 10 then zstr_digit n :: acc else z_digits f (n / 10) (zstr_digit (n mod 10) :: acc)
+  end.
+Definition z_to_string (n : Z) : string := if n <? 0 then String.append "-" (of_chars (z_digits 40 (- n) [])) else of_chars (z_digits 40 n []).
+Close Scope Z_scope.
+
 (* ---- association lists (Python dicts with unique keys, insertion ordered) ---- *)
 Fixpoint assoc {A} (k : string) (l : list (string * A)) : option A :=
   match l with [] => None | (k', v) :: r => if String.eqb k k' then Some v else assoc k r end.
